@@ -91,7 +91,9 @@ def compile_all(ctx):
     pb, _ = vlib.compile_harness(ctx, "harness/C04/probe_fill_planar_step.cpp", name="C04_probe_fill", sanitize=False, opt="-O0")
     PF[0] = 1 if pb else 0
     ctx.cov["probe_fill_planar_step_compiles"] = bool(pb)
-    extra = ["C04_PLANAR_STEP_FILL"] if pb else []
+    pe, _ = vlib.compile_harness(ctx, "harness/C04/probe_equal_planar.cpp", name="C04_probe_equal", sanitize=False, opt="-O0")
+    ctx.cov["probe_equal_planar_compiles"] = bool(pe)
+    extra = (["C04_PLANAR_STEP_FILL"] if pb else []) + ([] if pe else ["C04_NO_PLANAR_EQUAL"])
     def one(b): return b, vlib.compile_harness(ctx, "harness/C04/main.cpp", name="C04_org%d" % b, defines=["C04_ORG=%d" % b] + extra)
     with concurrent.futures.ThreadPoolExecutor(max_workers=min(len(BUILDS), ctx.jobs)) as ex: return dict(ex.map(one, BUILDS))
 
